@@ -91,7 +91,7 @@ class Uids:
 
 def fn_spec(kind):
     if kind == "derive":
-        return st.sampled_from(["derive"] * 5 + ["late-aw"]).map(
+        return st.sampled_from(["derive"] * 5 + ["late-aw", "typeof"]).map(
             lambda k: {"kind": k, "fl": "def", "susp": 0, "fault": None})
     if kind == "oddkey":
         # keys ordered through < only; == says "equal to everything" or raises
@@ -190,6 +190,10 @@ def base_case(draw, name, max_len=8, max_src=4, steps="full", min_len=0, min_src
             fns[role] = draw(fn_spec(_role_kind(role, fnkind)))
             if role == "key" and name in ("sorted", "min", "max") and draw(st.integers(0, 5)) == 0:
                 fns[role] = draw(fn_spec("oddkey"))
+    if any(f.get("kind") == "typeof" for f in fns.values()) and profile in ("truthy", "item") and srcs \
+            and srcs[-1]["items"] and srcs[-1].get("alias") is None and name != "merge" and draw(st.booleans()):
+        # the FIRST result of the callable is the class of an awaitable object
+        srcs[-1]["items"][0] = uids.fix(("AW",))
     params = {}
     v = {}
     total = sum(len(s["items"]) for s in srcs)
